@@ -46,6 +46,30 @@ def run(ctx):
                 R.rel("cat", ["C14"], a=x, b=sid, ab=xs)
                 R.rel("cat", ["C14"], a=xs, b=y, ab=xsy)
                 npairs += 3
+    # statements whose bytes depend on EQU constants: the value of a symbol must not depend on which statements used it before
+    Q = lambda n: {"o": "id", "nm": n}
+    Nn = lambda v: {"o": "n", "v": v}
+    B = lambda o, a, b: {"o": o, "a": a, "b": b}
+    exprs = [Q("CYLS"), B("+", Q("CYLS"), Nn(1)), B("-", Q("CYLS"), Nn(1)), B("*", Q("CYLS"), Nn(2)), B("+", Nn(1), Q("CYLS")), B("*", Nn(3), Q("CYLS")),
+             B("/", Q("CYLS"), Nn(2)), B("%", Q("CYLS"), Nn(3)), B("+", Q("CYLS"), Q("SECT")), Q("SECT"), B("*", Q("SECT"), Nn(18)), B("+", Q("SECT"), Nn(2)),
+             B("*", {"o": "par", "a": B("+", Q("CYLS"), Nn(1))}, Nn(2))]
+    def equ_stmt(e, kind):
+        if kind == 0:
+            return {"k": "ins", "mn": "MOV", "ops": [{"t": "r", "w": 8, "n": rng.choice([0, 4, 5])}, {"t": "e", "e": B("%", {"o": "par", "a": e}, Nn(100))}]}
+        if kind == 1:
+            return {"k": "ins", "mn": "MOV", "ops": [{"t": "r", "w": 16, "n": rng.choice([0, 1, 6])}, {"t": "e", "e": e}]}
+        if kind == 2:
+            return {"k": "data", "mn": rng.choice(["DB", "DW", "DD"]), "items": [{"t": "e", "e": e}]}
+        return {"k": "ins", "mn": "CMP", "ops": [{"t": "r", "w": 8, "n": 1}, {"t": "e", "e": B("%", {"o": "par", "a": e}, Nn(100))}]}
+    epre = [{"k": "equ", "nm": "CYLS", "e": Nn(10)}, {"k": "equ", "nm": "SECT", "e": Nn(512)}]
+    for _ in range(150 if quick else 2500):
+        A = [equ_stmt(rng.choice(exprs), rng.randrange(4)) for _k in range(rng.choice([1, 2]))]
+        Bq = [equ_stmt(rng.choice(exprs), rng.randrange(4)) for _k in range(rng.choice([1, 2]))]
+        a = R.add(epre + A)
+        b = R.add(epre + Bq)
+        ab = R.add(epre + A + Bq)
+        R.rel("cat", ["C14"], a=a, b=b, ab=ab)
+        npairs += 1
     R.run()
     return relcheck.finish(ctx, "C14", R, None,
                            "seeded label-free, position-independent statement sequences of length 1..4 (instruction and data forms of spec/Gen_Prog.tla, both modes): out(A;B) = out(A) o out(B) for both orders, "
